@@ -137,4 +137,8 @@ def replay(ctx, body):
     print(json.dumps({"main_object": o["cls"], "detail": o["detail"], "verdict": o["msgs"]}, indent=1, default=str))
     if o["msgs"]:
         ctx.violation("impl-violation", {"input": inp, "observed": {"main_object": o["cls"], "detail": o["detail"]}, "expected": "; ".join(o["msgs"])})
-    return ctx.finish(rule="replay")
+    import shutil
+    shutil.rmtree(ctx.tmp, ignore_errors=True)
+    for v in ctx.violations:
+        print("VIOLATION property=%s replay=%s" % (ctx.prop, v["replay"]), flush=True)
+    return 1 if ctx.violations else 0
